@@ -65,8 +65,22 @@ rst = need(re.search(r"next_restart_num\s*&=\s*(\d+)", jc), "jchuff.c: next_rest
 
 jp = rd("src/jcphuff.c")
 th = [num(x) for x in re.findall(r"entropy->EOBRUN\s*==\s*(0x[0-9A-Fa-f]+|\d+)", jp)]
-if len(th) != 2:
-    sys.exit("jcphuff.c: expected two 'entropy->EOBRUN == 0x7FFF' tests, found %d" % len(th))
+# one test in encode_mcu_AC_first, one in encode_mcu_AC_refine; anything else is translated to -1 (fact fails)
+i1 = jp.rfind("encode_mcu_AC_first(j_compress_ptr")
+i2 = jp.rfind("encode_mcu_DC_refine(j_compress_ptr")
+i3 = jp.rfind("encode_mcu_AC_refine(j_compress_ptr")
+i4 = jp.rfind("finish_pass_phuff(j_compress_ptr")
+if min(i1, i2, i3, i4) < 0:
+    sys.exit("jcphuff.c: encode_mcu_AC_first / DC_refine / AC_refine / finish_pass_phuff not found")
+f_first, f_refine = jp[i1:i2], jp[i3:i4]
+t1 = [num(x) for x in re.findall(r"entropy->EOBRUN\s*==\s*(0x[0-9A-Fa-f]+|\d+)", f_first)]
+t2 = [num(x) for x in re.findall(r"entropy->EOBRUN\s*==\s*(0x[0-9A-Fa-f]+|\d+)", f_refine)]
+th = [t1[0] if len(t1) == 1 else -1, t2[0] if len(t2) == 1 else -1]
+# order of the end-of-block bookkeeping in encode_mcu_AC_refine:  EOBRUN++ ; BE += BR ; flush test
+pa = f_refine.find("entropy->EOBRUN++")
+pb = f_refine.find("entropy->BE += BR")
+mflush = re.search(r"entropy->EOBRUN\s*==\s*(?:0x[0-9A-Fa-f]+|\d+)\s*\|\|\s*entropy->BE\s*>\s*\(MAX_CORR_BITS\s*-\s*DCTSIZE2\s*\+\s*1\)", f_refine)
+acr_order_ok = pa >= 0 and pb > pa and mflush is not None and mflush.start() > pb
 mcorr = num(need(re.search(r"#define\s+MAX_CORR_BITS\s+(\d+)", jp), "jcphuff.c: MAX_CORR_BITS").group(1))
 pz = [num(x) for x in re.findall(r"while\s*\(\s*r\s*>\s*(\d+)", jp)]
 if len(pz) != 2:
@@ -109,6 +123,7 @@ print("Definition gen_restart_num_mask : Z := %d." % num(rst.group(1)))
 print("Definition gen_eobrun_flush_ac_first : Z := %d." % th[0])
 print("Definition gen_eobrun_flush_ac_refine : Z := %d." % th[1])
 print("Definition gen_max_corr_bits : Z := %d." % mcorr)
+print("Definition gen_acr_be_before_flush : bool := %s.  (* encode_mcu_AC_refine: EOBRUN++; BE += BR; then the flush test on EOBRUN / BE *)" % ("true" if acr_order_ok else "false"))
 print("Definition gen_prog_zrl_run_first : Z := %d.  (* while (r > 15) *)" % pz[0])
 print("Definition gen_prog_zrl_run_refine : Z := %d." % pz[1])
 print("Definition gen_eobrun_max_nbits : Z := %d." % eon)
